@@ -376,6 +376,13 @@ def deck():
         cell("reorder/sec-last-of-two/%d" % i, ["reorder", B, i])
         cell("reorder/prop/%d" % i, ["prop", "z", enc([1]), "int", A, {}], ["reorder", P, i])
         cell("reorder/prop-last/%d" % i, ["prop", "z", enc([1]), "int", A, {}], ["reorder", 14, i])
+    for bad_index in ("0", 1.0, None, [0]):
+        cell("reorder/sec/index-not-an-integer", ["reorder", C, enc(bad_index)])
+        cell("reorder/prop/index-not-an-integer", ["prop", "z", enc([1]), "int", A, {}], ["reorder", P, enc(bad_index)])
+    cell("setitem/sections/by-name", ["setitem", D, "sections", "b", X])
+    cell("setitem/sections/by-name-missing", ["setitem", D, "sections", "nope", X])
+    cell("setitem/sections/by-name-clash", ["sec", "a", "t2", None, {}], ["setitem", D, "sections", "b", 14])
+    cell("setitem/properties/by-name", ["setitem", A, "properties", "p", Q])
     cell("reorder/sec/detached", ["reorder", X, 0])
     cell("reorder/prop/detached", ["reorder", Q, 0])
     for obj, on, clash in ((C, "sec", "b"), (P, "prop", "z")):
